@@ -85,6 +85,21 @@ def evaluate(e, dtype):
         for k, (p, q) in enumerate(zip(list(L.cores) + [L.bias], cores2 + [b2])):
             if p.grad is None or not torch.equal(p.grad, q.grad):
                 fails.append("gradient of parameter %d differs from the gradient of the dense affine map" % k)
+        # the same gradients with the module in eval() mode (eval changes dropout-like layers, it must not detach anything here)
+        L6, *_ = e.layer(dtype)
+        with torch.no_grad():
+            for p, c in zip(L6.cores, e.args[0].cores): p.copy_(ttgen.to_torch(c, dtype))
+            L6.bias.copy_(ttgen.to_torch(e.args[1].arr, dtype))
+        L6.eval()
+        Xg = X.clone().requires_grad_(True)
+        y6 = L6.forward(Xg)
+        if list(y6.shape) != list(y2.shape) or not torch.equal(y6.detach(), y2.detach()): fails.append("forward() in eval() mode differs (value or shape %s vs %s)" % (list(y6.shape), list(y2.shape)))
+        else:
+            (w * y6).sum().backward()
+            for k, (p, q) in enumerate(zip(list(L6.cores) + [L6.bias], cores2 + [b2])):
+                if p.grad is None or not torch.equal(p.grad, q.grad):
+                    fails.append("in eval() mode the gradient of parameter %d differs from the gradient of the dense affine map" % k)
+            if Xg.grad is None: fails.append("in eval() mode no gradient reaches the input")
         # W is contracted from the layer's REGISTERED parameters, whatever they are now: (a) parameters replaced (not copied into) after
         # construction, (b) a stateless call with substituted parameters
         L2, *_ = e.layer(dtype)
